@@ -10,6 +10,7 @@ package main
 import (
 	"fmt"
 	"regexp"
+	"runtime/debug"
 	"strconv"
 	"strings"
 	"sync"
@@ -39,6 +40,9 @@ func main() {
 			"error messages are never compared, only chunk:LINE: of syntax errors; edits that only produce goto/label/attribute (semantic) errors are not line-checked",
 		},
 		Families: families,
+		// compiling allocates heavily (~0.2 ms of allocation per function);
+		// a larger heap target removes most of the collector's share
+		Init: func(string) { debug.SetGCPercent(800) },
 	})
 }
 
